@@ -85,11 +85,13 @@ class UciOption
     OptionType get_type() const;
 
   public:
-    OptionType _type;
+    // every option type uses only some of these fields, but options are copied as a whole
+    // (std::map assignment in the Uci constructor), so none of them may be left uninitialised
+    OptionType _type = kSTRING;
 
-    bool _check;
-    int _spin;
-    int _spin_min, _spin_max;
+    bool _check = false;
+    int _spin = 0;
+    int _spin_min = 0, _spin_max = 0;
     std::vector<std::string> _combo_options;
     std::string _string;  // used both in combo and string
 
